@@ -17,6 +17,8 @@ CONSTANTS
   AllowProgress = FALSE
   PreFF = {FALSE}
   Coded = {}
+  SubErrs = {}
+  DetIds = {"fresh"}
 CONSTRAINT ExportC
 INVARIANT Verdict
 INVARIANT TagsScoped
